@@ -221,7 +221,9 @@ impl<Deco: Decoration> fmt::Display for WithContext<'_, Posting<'_, Deco>> {
             let balance_padding = if post.amount.is_some() {
                 0
             } else {
-                get_column(50 + trailing, account_width, 2)
+                // The width includes `=` itself,
+                // and at least two spaces are required to separate it from the account.
+                get_column(50 + trailing, account_width, 3)
             };
             write!(
                 f,
